@@ -55,6 +55,11 @@ func checkC03(c *Case, st *Stats) string {
 		docText = c.Doc.JSON()
 	}
 	Journal(c.Check, c.Path, docText, flagString(c))
+	if len(c.Path)%23 == 7 {
+		// somebody's user function panicked in the middle of an earlier retrieval (and was recovered)
+		panickingRetrieval(len(docText), 1+len(docText)%4)
+		st.Class("preceded-by-a-panicking-retrieval")
+	}
 	rec := &Recorder{}
 	var got []interface{}
 	var rerr error
